@@ -110,6 +110,8 @@ def run_shard(spec_, res):
         import random as _random
         from .. import threadtasks
         threadtasks.run_loads(res, PROPERTY, _random.Random(spec_["seed"] * 31 + spec_["shard"]), spec_["seed"], tier, 8 if tier == "quick" else 60)
+    threadtasks_ = __import__("rvmon.threadtasks", fromlist=["x"])
+    threadtasks_.free_running_saves(res, PROPERTY, spec_["seed"], spec_["shard"], tier)
     # the same files once more, loaded by an interpreter that has done nothing else
     workload.fresh_process_reload(res, PROPERTY, FRESH)
     del FRESH[:]
